@@ -82,11 +82,12 @@ H(h_c01_%s) {
     %s
     try {
         %s p(b, n);
-        uint32_t hs = p.header_size(), ts = p.trailer_size(), sz = p.size();
+        PDU& r = p;
+        uint32_t hs = r.header_size(), ts = r.trailer_size(), sz = r.size();
         vp_assert(sz >= hs, "size() covers the header");
-        vp_observe(hs); vp_observe(ts); vp_observe(sz); vp_observe(p.pdu_type());
-        PDU* c = p.clone();
-        vp_assert(c != 0 && c->pdu_type() == p.pdu_type(), "clone() yields an object of the same class");
+        vp_observe(hs); vp_observe(ts); vp_observe(sz); vp_observe(r.pdu_type());
+        PDU* c = r.clone();
+        vp_assert(c != 0 && c->pdu_type() == r.pdu_type(), "clone() yields an object of the same class");
         vp_assert(c->size() == sz, "clone() has the same size");
         delete c;
         vp_accept();
